@@ -99,6 +99,16 @@ def build_world(scen_seed):
         st = InitialState(time_step=0, position=np.array([3 * math.pi + i, math.e]), orientation=math.sqrt(2) / 2,
                           velocity=math.pi / 3, acceleration=0.0, yaw_rate=0.0, slip_angle=0.0)
         sc.add_objects(DynamicObstacle(710, ObstacleType.CAR, Rectangle(4.123456789012, 1.8), st, None))
+        # a dynamic obstacle whose signal series is stored in another order than by time step (looked up by time step,
+        # written in list order by both formats): a writer that re-orders its input changes what the next writer sees
+        for _ in range(6):
+            o = scen.rand_obstacle(rng, 720, role="dynamic")
+            if o.signal_series and len(o.signal_series) >= 2:
+                ser = list(o.signal_series)
+                ser = ser[1:] + ser[:1] if rng.random() < 0.5 else ser[::-1]
+                sc.add_objects(DynamicObstacle(720, o.obstacle_type, o.obstacle_shape, o.initial_state, o.prediction,
+                                               initial_signal_state=o.initial_signal_state, signal_series=ser))
+                break
         # the same for lanelet boundaries: one lanelet whose vertex values all scenarios of the case share, one of its own
         sc.add_objects(_fine_lanelet(80, shared_xs, 60 + math.sqrt(2), 63 + math.e))
         sc.add_objects(_fine_lanelet(81, [rng.uniform(0, 30) for _ in range(2)], 70 + rng.random(), 73 + rng.random()))
